@@ -8,7 +8,6 @@ import (
 	"context"
 	"encoding/json"
 	"fmt"
-	"math/rand"
 	"os"
 	"runtime"
 	"sort"
@@ -284,7 +283,7 @@ func replay(in input) map[string]any {
 // record runs n random concurrent scenarios and prints one history per line:
 // {"hist":[events...]}.  Events: reset / call / ret / cancel / quiescent (schema DESIGN.md 2.3a).
 func record(n int, seed int64) {
-	rng := rand.New(rand.NewSource(seed))
+	rng := rt.NewRand(seed)
 	for i := 0; i < n; i++ {
 		runtime.GOMAXPROCS(1 + rng.Intn(8))
 		rec := &rt.Recorder{}
@@ -301,7 +300,7 @@ func record(n int, seed int64) {
 		var ctxs []ctxpair
 		start := make(chan struct{})
 		for t := 0; t < nthreads; t++ {
-			r := rand.New(rand.NewSource(rng.Int63()))
+			r := rt.NewRand(rng.Int63())
 			tn := fmt.Sprintf("t%d", t)
 			sw.Add(1)
 			go func() {
